@@ -334,3 +334,7 @@ PROPS["C16"] = {
             "each GOMAXPROCS value, rotated. Every case is non-trivial (>= 2 concurrent calls); distinct by the whole workload.",
     "assumptions": COMMON_ASSUMPTIONS,
 }
+
+# native coverage-guided fuzzing, thorough tier only (wall-clock budget; see DESIGN.md section 2)
+for _pid, _secs in (("C01", 150), ("C02", 120), ("C03", 180), ("C04", 180), ("C05", 90), ("C10", 180)):
+    PROPS[_pid]["parts"].append({"name": "native-fuzz", "kind": "fuzz", "test": "Fuzz" + _pid, "tiers": ("thorough",), "fuzztime": {"thorough": _secs}})
